@@ -207,3 +207,31 @@ package contractcourt
 //@          confirmedHTLCs == commitSet.HtlcSets[commitSet.ConfCommitKey.some])
 //@   site call FetchUnresolvedContracts: assert true
 //@   site call Supplement: assert retn(FetchContractResolutions, 1) == nil && retn(FetchUnresolvedContracts, 1) == nil
+//@
+//@ func (b *boltArbitratorLog) writeResolver
+//@   props C13
+//@   site call Put: assert arg(1) == ret(ResolverKey) && ret(Encode) == nil && ret(ResolverKey) != nil
+//@   site call Encode: assert arg(0) == res
+//@   site call Write: assert true
+//@   ensures result == nil && ret(ResolverKey) != nil ==> called(Put)
+//@
+//@ func (b *boltArbitratorLog) InsertUnresolvedContracts$1
+//@   props C13
+//@   loop * havoc
+//@   loop 0 step called(writeResolver) && ret(writeResolver) == nil
+//@   site call writeResolver: assert arg(1) == retn(fetchContractWriteBucket, 0) && arg(2) == resolver && retn(fetchContractWriteBucket, 1) == nil
+//@   site call PutResolverReport: assert arg(1) == report
+//@
+//@ func (b *boltArbitratorLog) SwapContract$1
+//@   props C13
+//@   site call Delete: assert arg(1) == ret(ResolverKey) && retn(fetchContractWriteBucket, 1) == nil
+//@   site call writeResolver: assert ret(Delete) == nil && arg(2) == newContract
+//@
+//@ func (b *boltArbitratorLog) ResolveContract$1
+//@   props C13
+//@   site call Delete: assert arg(1) == ret(ResolverKey) && retn(fetchContractWriteBucket, 1) == nil
+//@
+//@ func (bo *breachedOutput) BlocksToMaturity
+//@   props C04
+//@   ensures result == ite(bo.witnessType == input.CommitmentToRemoteConfirmed || bo.witnessType == input.TaprootRemoteCommitSpend ||
+//@           bo.witnessType == input.TaprootRemoteCommitSpendFinal, 1, 0)
